@@ -162,8 +162,19 @@ func c16Corrupt(batch []*nom.DetailedMomentum, i int, kind string, r *rand.Rand)
 		return false
 	case "content-reordered":
 		// needs two entries of one account so that order matters
+		// (a contract-send entry is skipped by verification and application alike: swapping it with its parent receive
+		// gives a different but equally valid momentum, so only pairs of non-batched blocks count)
+		batched := map[types.Hash]bool{}
+		for _, b := range d.AccountBlocks {
+			if b.BlockType == nom.BlockTypeContractSend {
+				batched[b.Hash] = true
+			}
+		}
 		seen := map[types.Address]int{}
 		for k, hd := range m.Content {
+			if batched[hd.Hash] {
+				continue
+			}
 			if j, ok := seen[hd.Address]; ok {
 				m.Content[j], m.Content[k] = m.Content[k], m.Content[j]
 				c16Resign(m, producer)
